@@ -276,6 +276,9 @@ void MEDDLY::prepost_set_mtrel<EOP, ATYPE>::_compute(int L,
         // Treat that case quickly.
         //
         ATYPE::apply(arg1F, av, A, arg2F, B, resF, cv, C);
+        // The copy is built at A's level; add the skipped levels up to L
+        // (needed if the result forest is quasi-reduced).
+        C = resF->makeRedundantsTo(C, Alevel, L);
         return;
     }
 
